@@ -483,14 +483,26 @@ def get_function_ast(modname, qualname):
 
 
 def _targets(st):
+    """names a statement assigns: plain names, and  base[]  for an item
+    assignment  base[key] = ... / base[key] += ...  on a plain name"""
     out = []
+
+    def sub(t):
+        if isinstance(t, ast.Subscript) and isinstance(t.value, ast.Name):
+            return t.value.id + '[]'
+        return None
     if isinstance(st, ast.Assign):
         for t in st.targets:
+            if sub(t):
+                out.append(sub(t))
+                continue
             for n in ast.walk(t):
                 if isinstance(n, ast.Name) and isinstance(n.ctx, ast.Store):
                     out.append(n.id)
     elif isinstance(st, ast.AugAssign) and isinstance(st.target, ast.Name):
         out.append(st.target.id)
+    elif isinstance(st, ast.AugAssign) and sub(st.target):
+        out.append(sub(st.target))
     return out
 
 
